@@ -25,7 +25,7 @@ ASSUMPTIONS = ['the string-level reference in harness/src/main.rs (module refere
                'an overflow panic on the checked build is a diagnostic; the functional comparison on the release build decides']
 REQUIRED = {t: ['enum_kmers_checked', 'structured_kmers_checked', 'random_kmers_checked', 'windows_checked', 'hashes_checked',
                 'miri_kmers_checked', 'chk_kmers_checked', 'windows_after_N_restart', 'quality_restarts',
-                'cli_use_sites_128bit', 'cli_use_sites_64bit', 'windows_with_ambiguity_letters_slide_vs_scratch'] for t in ('quick', 'thorough')}
+                'cli_use_sites_128bit', 'cli_use_sites_64bit', 'windows_with_ambiguity_letters_slide_vs_scratch', 'map_first_windows_after_a_leading_N'] for t in ('quick', 'thorough')}
 
 
 def builds(tier):
@@ -61,6 +61,8 @@ def plan(tier, seed, rng, scale):
     for i in range(int((16 if tier == 'quick' else 60) * max(scale, 0.25))):
         # the width chosen at a use site of the command line: k on both sides of the 64/128-bit boundary
         descs.append({'kind': 'cli-auto', 'k': [31, 33, 41, 63, 29, 35, 51, 21][i % 8], 'rc': i % 3 != 0, 'seed': rng.getrandbits(32)})
+    for i in range(int((60 if tier == 'quick' else 600) * max(scale, 0.25))):
+        descs.append({'kind': 'cli-map', 'k': [11, 21, 31, 33, 41, 63, 9, 15][i % 8], 'rc': i % 3 != 0, 'seed': rng.getrandbits(32)})
     return descs
 
 
@@ -183,6 +185,39 @@ def run_case(desc, ctx):
     res = Result()
     kind = desc['kind']
     H = ctx.bins['harness']
+    if kind == 'cli-map':
+        # middle positions at a use site: `ska map` against contigs whose first window does not start at base 0 (an N within the
+        # first k bases), with a sample that differs from the reference exactly at the centre of that first window
+        from . import c04
+        k, rcmode = desc['k'], desc['rc']
+        rng = random.Random(desc['seed'])
+        h = (k - 1) // 2
+        ref, smp = [], []
+        for _c in range(rng.randint(1, 3)):
+            pre = G.rseq(rng, rng.randint(0, k - 1))
+            body = G.rseq(rng, rng.randint(k, 4 * k))
+            ref.append(pre + 'N' * rng.randint(1, 2) + body)
+            t_ = list(body)
+            t_[h] = {'A': 'C', 'C': 'G', 'G': 'T', 'T': 'A'}[t_[h]]                     # the centre of the first window after the N
+            smp.append(''.join(t_))
+        ctx.write('ref.fa', ''.join('>c%d\n%s\n' % (i, c) for i, c in enumerate(ref)))
+        G.write_fa(ctx.path('s0.fa'), smp)
+        p = G.ska_build(ctx, ctx.path('o'), [ctx.path('s0.fa')], k, rcmode)
+        m = ctx.sh(ctx.ska, 'map', ctx.path('ref.fa'), ctx.path('o.skf'))
+        res.evals += 1
+        if p.returncode != 0 or m.returncode != 0:
+            raise Inconclusive('build/map failed: ' + (p.stderr + m.stderr)[-200:])
+        _h, table = G.nk(ctx, ctx.path('o.skf'))
+        exp, matched, _m = c04.expected_map(ref, table, 1, k, rcmode, False, False)
+        _n, got = M.parse_fasta(m.stdout)
+        if got != exp:
+            pos = [i for i in range(min(len(got[0]), len(exp[0]))) if got[0][i] != exp[0][i]][:5] if got else []
+            res.violate('C16:cli-map', 'k=%d rc=%s: mapping against contigs with an N among their first k bases: differing positions %s, got %r expected %r'
+                        % (k, rcmode, pos, got[0][:60] if got else None, exp[0][:60]), {'ref': ref, 'sample': smp})
+        else:
+            res.count('map_first_windows_after_a_leading_N', len(ref))
+            res.nontrivial.append(fingerprint(['cli-map', desc['seed']]))
+        return res
     if kind == 'cli-auto':
         # sliding and packing as used by `ska build --min-count auto`: its k-mer multiplicities (printed table, cutoff) must be
         # those of `ska cov` at the same k, and the build must obey that count - for k <= 31 and k >= 33 alike
